@@ -207,13 +207,137 @@ Definition c11_hist_run (case obs : sx) : verdict :=
   | _, _ => BadCase
   end.
 
+(* ---- which = 5: one plain request whose scripted reads may return data TOGETHER with an error (io.Reader allows it,
+   net/http bodies do it routinely).  read = #bytes | 0 as above, or
+     (1 #bytes)  the bytes are returned with io.EOF on their last part; the body has ended (later reads are not reached)
+     (2 #bytes)  the bytes are returned with a non-EOF error; the body has ended.
+   Pure glue: the case is rewritten into the plain read list that processBulk sees.  (n > 0, io.EOF) is a chunk like
+   any other followed by the end of the body.  (n > 0, err): processBulk as written returns the error without looking
+   at the n bytes ([keep] = false); handing them over first ([keep] = true) is equally allowed by the property (no 200
+   either way), so both readings are accepted.  The bytes of a (2 ..) read must fit the 16 KiB read buffer (a longer
+   read would be split by Read and only its last part would carry the error). *)
+Fixpoint norm_reads (keep : bool) (l : list sx) : option (list sx) :=
+  match l with
+  | [] => Some []
+  | SL [SZ 1; SB b] :: _ => Some [SB b]
+  | SL [SZ 2; SB b] :: _ =>
+      if N.leb (N.of_nat (length b)) 16384%N
+      then Some (if keep then [SB b; SZ 0] else [SZ 0]) else None
+  | SL _ :: _ => None
+  | x :: r => match norm_reads keep r with Some r' => Some (x :: r') | None => None end
+  end.
+
+Definition c11_ext_run (case obs : sx) : verdict :=
+  match case with
+  | SL l =>
+      match norm_reads false l, norm_reads true l with
+      | Some a, Some b =>
+          match c11_run (SL a) obs with
+          | Agree => Agree
+          | v => match c11_run (SL b) obs with Agree => Agree | _ => v end
+          end
+      | _, _ => BadCase
+      end
+  | _ => BadCase
+  end.
+
+(* ---- which = 6: a history of gzip requests on ONE plugin with FAILING bodies of every kind, so that readers which
+   failed in the middle of a stream go back to the pool and are reused.  case = (request ...), request =
+     1                     not a gzip stream (bad header)                      -> no event, 400
+     (0 #body)             gzip(body), delivered at once                       -> exact
+     (3 #body k)           gzip(body), the COMPRESSED bytes arrive k at a time -> exact
+     (6 #b1 #b2)           two gzip members gzip(b1) ++ gzip(b2)               -> exact, body = b1 ++ b2 (multistream)
+     (2 #body cut)         gzip(body) truncated to its first cut bytes         -> failing
+     (4 #body cut k)       first cut compressed bytes (k at a time), then a read error -> failing
+     (5 #body w)           gzip(body) with a wrong CRC (w = 0) / length (w = 1) trailer -> failing
+     (7 #body #junk)       gzip(body) followed by junk that is no gzip header  -> failing
+   A failing request must not be answered 200 (model: 400) and what it handed over before failing must be a prefix of
+   the COMPLETE lines of its body (how far the decompressor got is below this model: relational clause).  Every other
+   request behaves as if alone although the last two exact ones overlap in time, as for which = 4. *)
+Fixpoint sx_prefix (a b : list sx) : bool :=
+  match a, b with
+  | [], _ => true
+  | x :: a', y :: b' => sx_eqb x y && sx_prefix a' b'
+  | _ :: _, [] => false
+  end.
+
+Definition fault_rel (body : bytes) (o : sx) : sx * bool :=
+  match o with
+  | SL [SL evs; SZ st] =>
+      if sx_prefix evs (map SB (fst (lines_tail body)))
+      then (SL [SL evs; SZ 400], negb (Z.eqb st 200))
+      else (SL [SL []; SZ 400], false)
+  | _ => (SL [SL []; SZ 400], false)
+  end.
+
+Definition fault_exact (c o : sx) : option (sx * bool) :=
+  match c11_model c with Some m => Some (m, c11_pred c o) | None => None end.
+
+Definition fault_one (r o : sx) : option (sx * bool) :=
+  match r with
+  | SZ 1 => Some (SL [SL []; SZ 400], sx_eqb o (SL [SL []; SZ 400]))
+  | SL [SZ 0; SB b] => fault_exact (SL [SB b]) o
+  | SL [SZ 3; SB b; SZ _] => fault_exact (SL [SB b]) o
+  | SL [SZ 6; SB b1; SB b2] => fault_exact (SL [SB b1; SB b2]) o
+  | SL [SZ 2; SB b; SZ _] => Some (fault_rel b o)
+  | SL [SZ 4; SB b; SZ _; SZ _] => Some (fault_rel b o)
+  | SL [SZ 5; SB b; SZ _] => Some (fault_rel b o)
+  | SL [SZ 7; SB b; SB (j :: _)] => if N.eqb j 31 then None else Some (fault_rel b o)
+  | _ => None
+  end.
+
+Fixpoint pairs_go (f : sx -> sx -> option (sx * bool)) (rs os : list sx) : option (list sx * bool) :=
+  match rs, os with
+  | [], [] => Some ([], true)
+  | r :: rs', o :: os' =>
+      match f r o, pairs_go f rs' os' with
+      | Some (m, ok), Some (ms, oks) => Some (m :: ms, ok && oks)
+      | _, _ => None
+      end
+  | _, _ => None
+  end.
+
+Definition pairs_run (f : sx -> sx -> option (sx * bool)) (case obs : sx) : verdict :=
+  match case, obs with
+  | SL rs, SL os =>
+      match pairs_go f rs os with
+      | Some (ms, ok) =>
+          if ok then (if sx_eqb (SL ms) obs then Agree else Differ (SL ms)) else Violates (SL ms)
+      | None => BadCase
+      end
+  | _, _ => BadCase
+  end.
+
+Definition c11_fault_run : sx -> sx -> verdict := pairs_run fault_one.
+
+(* ---- which = 7: several PHASES of concurrent requests on one plugin (warm buffer pools): case = (phase ...),
+   phase = ((request ...) (order ...) hold); obs = one which-3 observable per phase.  [hold] names a request the harness
+   parks inside controller.In until the others of its phase are done (-1 = none); like the order it must not matter. *)
+Definition phase_one (p o : sx) : option (sx * bool) :=
+  match p with
+  | SL [SL reqs; SL ord; SZ _] =>
+      let p' := SL [SL reqs; SL ord] in
+      match c11_multi_model p' with
+      | Some m => Some (m, c11_multi_pred p' o)
+      | None => None
+      end
+  | _ => None
+  end.
+
+Definition c11_phases_run : sx -> sx -> verdict := pairs_run phase_one.
+
 (* entry point of the model runner (extracted, and evaluated by vm_compute in the cross-check):
-   0 / 2 = one request (plain / gzip), 1 = source-id pool, 3 = concurrent requests, 4 = gzip request history *)
+   0 / 2 = one request (plain / gzip), 1 = source-id pool, 3 = concurrent requests, 4 = gzip request history,
+   5 = one request with reads that return data together with an error, 6 = gzip histories with failing bodies,
+   7 = phases of concurrent requests on one plugin *)
 Definition c11_entry (which : Z) (case obs : sx) : verdict :=
   match which with
   | 0 | 2 => c11_run case obs
   | 3 => c11_multi_run case obs
   | 4 => c11_hist_run case obs
+  | 5 => c11_ext_run case obs
+  | 6 => c11_fault_run case obs
+  | 7 => c11_phases_run case obs
   | _ => match c11_id_model case with
          | Some m => exact_verdict m obs
          | None => BadCase
